@@ -46,13 +46,14 @@ def decSvcX (e : SExp) : Option SvcX := do
 
 def decSCfg (e : SExp) : Option Cfg := do
   match ← args "scfg" e with
-  | [routing, enc, recov, rscript, plain, cf, svcs, routes] =>
+  | [routing, enc, recov, rscript, plain, cf, svcs, routes, cerr] =>
     let rs ← match rscript with
       | .atom "-" => pure none
       | e => (decServeActs "rscript" e).map some
     pure { routing := ← decCfg routing, encoding := ← asBool enc, recover := ← asBool recov, recoverScript := rs,
            plainScript := ← decServeActs "plain" plain, cfilters := ← (← args "cf" cf).mapM decServeFilter,
-           svcs := ← (← args "svcs" svcs).mapM decSvcX, routes := ← (← args "routes" routes).mapM decRouteX }
+           svcs := ← (← args "svcs" svcs).mapM decSvcX, routes := ← (← args "routes" routes).mapM decRouteX,
+           customErr := ← asBool cerr }
   | _ => none
 
 def decServeEntry : SExp → Option Entry
